@@ -590,4 +590,77 @@ theorem redactOperation_eq (g : Globals) (T : Tables) (env : Env g T) (fuel : Na
   have : sInsert = s_insert := rfl
   rw [seqPair_seqVal, seqVal_eq, this]
 
+/-! `redactNamespaceFields` -/
+
+/-- a loop that always continues as long as an invariant of the state holds is a fold (the invariant being kept) -/
+theorem forIn_yield_fold_inv {α β : Type} (f : α → β → Option (ForInStep β)) (step : β → α → β) (Inv : β → Prop) :
+    ∀ (xs : List α) (init : β), Inv init → (∀ x ∈ xs, ∀ s, Inv s → f x s = some (.yield (step s x)) ∧ Inv (step s x)) →
+      forIn xs init f = some (xs.foldl step init)
+  | [], _, _, _ => rfl
+  | x :: xs, init, hi, h => by
+    have hx := h x (by simp) init hi
+    rw [forIn_cons_yield x xs init (step init x) f hx.1]
+    exact forIn_yield_fold_inv f step Inv xs (step init x) hx.2 (fun y hy s hs => h y (by simp [hy]) s hs)
+
+def fNs (c : Ctx) : J → J
+  | .str s => .str (c.H s)
+  | v => v
+
+theorem foldl_updAt (f : J → J) : ∀ (ks : List Str) (cmd : List (Str × J)), ks.Nodup →
+    ks.foldl (fun c k => updAt k f c) cmd = cmd.map (fun p => if ks.contains p.1 then (p.1, f p.2) else p)
+  | [], cmd, _ => by simp
+  | k :: ks, cmd, hnd => by
+    have hk : k ∉ ks := (List.nodup_cons.mp hnd).1
+    rw [List.foldl_cons, foldl_updAt f ks (updAt k f cmd) (List.nodup_cons.mp hnd).2]
+    unfold updAt
+    rw [List.map_map]
+    apply List.map_congr_left
+    intro p _
+    by_cases h1 : p.1 = k
+    · have hk' : ¬ (k ∈ ks) := hk
+      simp [h1, hk']
+    · by_cases h2 : ks.contains p.1 = true
+      · simp [h1, h2]
+      · have h2' : ks.contains p.1 = false := by simpa using h2
+        have h3 : ¬ (p.1 ∈ ks) := by simpa using h2'
+        simp [h1, h3, Ne.symm h1]
+
+/-- **`redactNamespaceFields` is the model's `nsFields`** (for the regenerated list of searched fields) -/
+theorem redactNamespaceFields_eq (g : Globals) (T : Tables) (cmd : List (Str × J)) (hnd : nodupKeys (keysOf cmd) = true)
+    (hsf : T.searchedFields = [s_ns, s_aggregate, s_insert, s_find, s_update, s_collection, s_delete, s__24db, s_count, s_findAndModify,
+      s_findOneAndDelete, s_replace, s_findOneAndReplace, s_findOneAndUpdate, s_getIndexes, s_countDocuments, s_distinct, s_mapReduce, s_findandmodify]) :
+    redactNamespaceFields g T cmd = some ((Ctx.mk T (absCfg g) false).nsFields cmd) := by
+  unfold redactNamespaceFields
+  simp only []
+  rw [forIn_yield_fold_inv _ (fun c k => updAt k (fNs (Ctx.mk T (absCfg g) false)) c) (fun c => nodupKeys (keysOf c) = true) _ cmd hnd]
+  · rw [foldl_updAt _ _ cmd (by decide)]
+    unfold Ctx.nsFields
+    simp only [bind, Option.bind, pure]
+    congr 1
+    apply List.map_congr_left
+    intro p _
+    rw [← hsf]
+    obtain ⟨k, v⟩ := p
+    unfold Ctx.nsFieldVal fNs
+    cases v <;> cases hc : T.searchedFields.contains k <;> simp [hc]
+  · intro field _ s hs
+    refine ⟨?_, by rw [keysOf_updAt]; exact hs⟩
+    cases hl : lookup field s with
+    | none => simp [objGet, hl, lookup_none_updAt field _ s hl]
+    | some v =>
+      cases v with
+      | str str =>
+        have := setKV_updAt field (fNs (Ctx.mk T (absCfg g) false)) s (.str str) hs hl
+        simp only [fNs] at this
+        simp only [objGet, hl, asStr, if_true, HashName_eq, bind, Option.bind, pure]
+        rw [← this]; rfl
+      | _ =>
+        have hfix := updAt_fix field (fNs (Ctx.mk T (absCfg g) false)) s _ hs hl rfl
+        simp [objGet, hl, asStr, hfix]
+
+/-- the searched fields of the regenerated constants are the literal list of the source -/
+theorem Gen_searchedFields : Generated.tables.searchedFields = [s_ns, s_aggregate, s_insert, s_find, s_update, s_collection, s_delete, s__24db, s_count,
+    s_findAndModify, s_findOneAndDelete, s_replace, s_findOneAndReplace, s_findOneAndUpdate, s_getIndexes, s_countDocuments, s_distinct, s_mapReduce,
+    s_findandmodify] := by decide
+
 end Anonymongo.Src
